@@ -209,3 +209,20 @@ def idx_shape(e):
         else:
             out.append(("other", leaf))
     return out
+
+
+def accum_unfiltered(L):
+    """iterative sites: L = np.concatenate((<accumulated so far>, X)) - X must be the unmodified result of the likelihood evaluation of this window
+    (a filtered / compacted X shifts every later position against the row map).  Returns (ok, why)."""
+    if not (isinstance(L, ast.Call) and (A.call_name(L) or "").split(".")[-1] == "concatenate" and L.args and isinstance(L.args[0], (ast.Tuple, ast.List)) and len(L.args[0].elts) == 2):
+        return False, "accumulated array `%s` is not np.concatenate((previous, new))" % A.unparse(L)[:70]
+    a, b = L.args[0].elts
+    prev, new = (a, b) if "@loop" in A.unparse(a) and isinstance(a, ast.Name) else (b, a) if "@loop" in A.unparse(b) and isinstance(b, ast.Name) else (None, None)
+    if prev is None:
+        return False, "neither part of `%s` is the array accumulated so far" % A.unparse(L)[:70]
+    if a is not prev:
+        return False, "the new window is put in front of the accumulated array: positions no longer follow the evaluation order"
+    core = A.strip_casts(new)
+    if isinstance(core, ast.Call) and (A.call_name(core) or "").split(".")[-1].startswith("marginal_ln_likelihood"):
+        return True, ""
+    return False, "the window appended to the accumulated likelihoods is `%s`, not the unmodified evaluation result: dropping / re-ordering entries shifts every later position against the row map" % A.unparse(new)[:80]
